@@ -27,11 +27,19 @@ tvars == <<vars, l, sc>>
 -----------------------------------------------------------------------------
 (* projections *)
 
-SpecTasks(p) == { [k |-> t, st |-> p.ts[t].st, prev |-> p.ts[t].prev, seq |-> p.ts[t].seq,
+(* creation stamps are compared as the order among the tasks that hang off   *)
+(* one predecessor, which is all Process::children makes of them             *)
+SpecTasks(p) == { [k |-> t, st |-> p.ts[t].st, prev |-> p.ts[t].prev,
+                   seq |-> Cardinality({ u \in DOMAIN p.ts : p.ts[u].prev = p.ts[t].prev
+                                                            /\ p.ts[u].seq < p.ts[t].seq }),
                    err |-> p.ts[t].err, emitOff |-> p.ts[t].emitOff,
-                   catchDone |-> p.ts[t].catchDone] : t \in DOMAIN p.ts }
-LogTasks(lp) == { [k |-> r.k, st |-> r.st, prev |-> r.prev, seq |-> r.seq, err |-> r.err,
-                   emitOff |-> r.emitOff, catchDone |-> r.catchDone] : r \in ToSet(lp.tasks) }
+                   catchDone |-> p.ts[t].catchDone,
+                   start |-> p.ts[t].start, tdone |-> p.ts[t].tdone] : t \in DOMAIN p.ts }
+LogTasks(lp) == { [k |-> r.k, st |-> r.st, prev |-> r.prev,
+                   seq |-> Cardinality({ u \in ToSet(lp.tasks) : u.prev = r.prev /\ u.seq < r.seq }),
+                   err |-> r.err,
+                   emitOff |-> r.emitOff, catchDone |-> r.catchDone,
+                   start |-> r.start, tdone |-> ToSet(r.tdone)] : r \in ToSet(lp.tasks) }
 
 SpecProc(pid, P, Q) ==
   IF P[pid].st = "absent" \/ P[pid].ts = <<>> THEN [cached |-> FALSE]
@@ -61,6 +69,7 @@ PostOK(r) ==
   /\ \A pid \in DOMAIN r.post.procs :
         Same(<<"proc", pid>>, SpecProc(pid, procs', queue'), LogProc(r.post.procs[pid]))
   /\ Same("jobs", SpecJobs(spawn'), LogJobs(r.post.jobs))
+  /\ Same("clock", now', r.post.now)
   /\ Same("messages", SpecOut(lastOut'), LogOut(r.gens))
 
 -----------------------------------------------------------------------------
@@ -98,6 +107,7 @@ TraceModel ==
   /\ queue' = {} /\ spawn' = {}
   /\ budget' = MaxActions
   /\ lastOut' = <<>> /\ lastRes' = "-" /\ lastAct' = NoAct
+  /\ now' = 0
 
 TraceSkip ==     \* lines that carry no action
   /\ l <= Len(Log) /\ Log[l].ev \in {"end", "note"}
@@ -130,11 +140,26 @@ TraceAct ==
      /\ Same("result", lastRes', LogRes(r))
      /\ PostOK(r)
 
+TraceTick ==
+  /\ IsStep("Tick")
+  /\ Tick
+  /\ PostOK(Log[l])
+
+TraceAdvance ==
+  /\ IsStep("Advance")
+  /\ LET r == Log[l] IN
+     /\ now' = now + r.d
+     /\ lastOut' = <<>> /\ lastRes' = "-"
+     /\ lastAct' = [StepLabel("Advance", NIL, <<NIL, 0>>) EXCEPT !.opt = [d |-> r.d]]
+     /\ UNCHANGED <<procs, queue, spawn, budget>>
+     /\ PostOK(r)
+
 TraceInit ==
   /\ Init
   /\ l = 1 /\ sc = 0
 
 TraceNext == TraceModel \/ TraceSkip \/ TraceStartCall \/ TraceLaunch \/ TraceExec \/ TraceAct
+             \/ TraceTick \/ TraceAdvance
 
 TraceSpec == TraceInit /\ [][TraceNext]_tvars
 
